@@ -751,7 +751,7 @@ fn c14(run: &'static Run) -> i32 {
     let (a, b) = crate::bbchk::c14_wallclock(run);
     s += a;
     t += b;
-    run.assume("part 2 of the property (a search returns before the clock runs out) is explored with a virtual clock; real wall-clock time cannot be enumerated: the family E7-WALL-CLOCK is a labelled measurement on the optimised binary (best of five attempts, skipped when the sandbox cannot time a 100 ms search)");
+    run.assume("part 2 of the property (a search returns before the clock runs out) is explored with a virtual clock; real wall-clock time cannot be enumerated: the family E7-WALL-CLOCK is a labelled measurement on the optimised binary (best of up to eight attempts, skipped when the sandbox cannot time a 100 ms search)");
     report::finish(run, s, t, "every tuple of the clock grid through TimeStrategy::new: hard <= (remaining - overhead)/2 (+1 ms tolerance for the f32 arithmetic), soft <= hard; movetime used as given", true)
 }
 
